@@ -161,10 +161,37 @@ void fillToCapacity(Instance& m, std::vector<T3>& model, unsigned salt, const st
 	expectPlan(m, model, "C10", "plan-content-after-fill", where);
 }
 
+// C17: a copy taken with the plan full (and after churn) shows the same plan and behaves the same
+void copyCheck(Instance& m, const std::vector<T3>& model, const std::string& where) {
+	Instance copy(m);
+	if (copy.activeStateId() != m.activeStateId()) viol("C17", "copy-not-observationally-equal|activity", where + ": original active " + std::to_string(m.activeStateId()) + ", copy " + std::to_string(copy.activeStateId()));
+	const std::vector<T3> pc = readPlan(copy), po = readPlan(m);
+	if (!same(pc, po)) viol("C17", "copy-not-observationally-equal|plan", where + ": the copy's plan iterates as " + planStr(pc).substr(0, 200) + ", the original's as " + planStr(po).substr(0, 200));
+	if (!same(po, model)) viol("C17", "copying-changed-the-original|plan", where);
+	// the same input to both: the active state succeeds
+	const unsigned cur = m.activeStateId();
+	g_n = 0; g_succeedIn = static_cast<int>(cur); copy.update(); g_succeedIn = -1;
+	const unsigned afterCopy = copy.activeStateId();
+	const std::vector<T3> planCopy = readPlan(copy);
+	Instance second(m);
+	g_n = 0; g_succeedIn = static_cast<int>(cur); second.update(); g_succeedIn = -1;
+	(void) afterCopy;
+	// (two copies taken from the same original must agree with each other; the original itself is left alone)
+	if (second.activeStateId() != afterCopy || !same(readPlan(second), planCopy))
+		viol("C17", "copy-diverged-from-original|state", where + ": two copies of one machine, given the same input, ended in states " + std::to_string(afterCopy) + " / " + std::to_string(second.activeStateId()));
+	// and against the model: if the first task's origin is the active state it fired (C08 semantics), else nothing moved
+	if (!model.empty() && model[0].o == cur) {
+		if (afterCopy != model[0].d) viol("C17", "copy-diverged-from-original|inherited-task-did-not-fire", where + ": in the copy the inherited first task " + std::to_string(model[0].o) + ">" + std::to_string(model[0].d) + " did not fire (active " + std::to_string(afterCopy) + ")");
+	} else if (afterCopy != cur) viol("C17", "copy-diverged-from-original|unexpected-transition", where + ": the copy moved to " + std::to_string(afterCopy));
+	if (!same(readPlan(m), model)) viol("C17", "original-disturbed-by-operation-on-copy|plan", where);
+	g_stats.add("copies_compared");
+}
+
 void runCapacity(Instance& m) {
 	m.plan().clear();
 	std::vector<T3> model;
 	fillToCapacity(m, model, 1, "first fill");
+	copyCheck(m, model, "copy of a machine with a full plan");
 	// churn: remove every second task through the iterator while iterating, then refill
 	{
 		std::vector<T3> kept, seen;
@@ -182,6 +209,7 @@ void runCapacity(Instance& m) {
 		g_stats.add("iterator_removes", static_cast<double>(i / 2));
 	}
 	fillToCapacity(m, model, 2, "refill after removals");
+	copyCheck(m, model, "copy after removals and refill");
 	// churn at full capacity: take exactly one task out (position rotates: first, middle, last ...) and append one, again
 	// and again - the free list then holds a single slot every time.  The tasks that stay must stay as they are (C08) and
 	// iteration must show exactly the appended-and-not-removed sequence (C10).
